@@ -18,6 +18,17 @@
 #include "celeritas/phys/ParticleParams.hh"
 #include "celeritas/phys/PhysicsParams.hh"
 #include "celeritas/track/TrackInitParams.hh"
+#include "celeritas/track/SimParams.hh"
+#include "celeritas/em/params/UrbanMscParams.hh"
+#include "celeritas/em/process/ComptonProcess.hh"
+#include "celeritas/em/process/GammaConversionProcess.hh"
+#include "celeritas/geo/GeoMaterialParams.hh"
+#include "celeritas/global/alongstep/AlongStepGeneralLinearAction.hh"
+#include "celeritas/io/ImportModel.hh"
+#include "celeritas/io/ImportProcess.hh"
+#include "celeritas/io/detail/ImportDataConverter.hh"
+#include "celeritas/phys/ImportedProcessAdapter.hh"
+#include "celeritas/phys/MockProcess.hh"
 
 namespace verif
 {
@@ -36,6 +47,8 @@ struct ProblemConfig
     real_type pcut{0.01};
     bool with_positron{false};
     real_type lowest{0.001};  // lowest_electron_energy (P2)
+    int track_order{0};  // TrackOrder enum value
+    real_type fixed_limit{0};  // PhysicsParamsOptions::fixed_step_limiter (P2)
 };
 
 //! SimpleTestBase (P1): Compton-only, gammas/electrons, two boxes
@@ -45,6 +58,7 @@ class P1 : public test::SimpleTestBase
     explicit P1(ProblemConfig c) : cfg_(c) {}
     void TestBody() override {}
     using test::SimpleTestBase::core;
+    using test::SimpleTestBase::action_reg;
 
   protected:
     real_type secondary_stack_factor() const override
@@ -56,7 +70,7 @@ class P1 : public test::SimpleTestBase
         TrackInitParams::Input input;
         input.capacity = cfg_.init_capacity;
         input.max_events = 4096;
-        input.track_order = TrackOrder::none;
+        input.track_order = static_cast<TrackOrder>(cfg_.track_order);
         return std::make_shared<TrackInitParams>(input);
     }
     SPConstCutoff build_cutoff() override
@@ -128,7 +142,7 @@ class P2 : public test::MockTestBase
         TrackInitParams::Input input;
         input.capacity = cfg_.init_capacity;
         input.max_events = 4096;
-        input.track_order = TrackOrder::none;
+        input.track_order = static_cast<TrackOrder>(cfg_.track_order);
         return std::make_shared<TrackInitParams>(input);
     }
     PhysicsOptions build_physics_options() const override
@@ -136,7 +150,271 @@ class P2 : public test::MockTestBase
         PhysicsOptions o;
         o.secondary_stack_factor = cfg_.stack_factor;
         o.lowest_electron_energy = units::MevEnergy{cfg_.lowest};
+        o.fixed_step_limiter = cfg_.fixed_limit;
         return o;
+    }
+
+  private:
+    ProblemConfig cfg_;
+};
+
+//! P3: SimpleTestBase + positron + Bethe-Heitler pair production with hand-written
+//! tables: gammas are ABSORBED with two surviving secondaries (e-, e+ stream out)
+class P3 : public P1
+{
+  public:
+    explicit P3(ProblemConfig c) : P1(with_pos(c)), cfg3_(c)
+    {
+        // unit-test-only debugging action; it rejects this problem's action order
+        this->disable_status_checker();
+    }
+
+  protected:
+    static ProblemConfig with_pos(ProblemConfig c)
+    {
+        c.with_positron = true;
+        if (c.cutmode == 0)
+            c.cutmode = 2;
+        return c;
+    }
+    SPConstPhysics build_physics() override
+    {
+        constexpr double electron_mass = 0.5;
+        PhysicsParams::Input input;
+        input.options.secondary_stack_factor = cfg3_.stack_factor;
+        auto const num_mat = this->material()->size();
+
+        ImportProcess compton;
+        compton.particle_pdg = pdg::gamma().get();
+        compton.secondary_pdg = pdg::electron().get();
+        compton.process_type = ImportProcessType::electromagnetic;
+        compton.process_class = ImportProcessClass::compton;
+        {
+            ImportModel m;
+            m.model_class = ImportModelClass::klein_nishina;
+            m.materials.resize(num_mat);
+            for (auto& imm : m.materials)
+                imm.energy = {1e-4, 1e8};
+            compton.models.push_back(std::move(m));
+        }
+        {
+            ImportPhysicsTable lambda;
+            lambda.table_type = ImportTableType::lambda;
+            lambda.x_units = ImportUnits::mev;
+            lambda.y_units = ImportUnits::len_inv;
+            lambda.physics_vectors = {
+                {ImportPhysicsVectorType::log, {1e-4, 1.0}, {1e1, 1e0}},
+                {ImportPhysicsVectorType::log, {1e-4, 1.0}, {1e-10, 1e-10}},
+            };
+            compton.tables.push_back(std::move(lambda));
+        }
+        {
+            ImportPhysicsTable lambdap;
+            lambdap.table_type = ImportTableType::lambda_prim;
+            lambdap.x_units = ImportUnits::mev;
+            lambdap.y_units = ImportUnits::len_mev_inv;
+            lambdap.physics_vectors = {
+                {ImportPhysicsVectorType::log, {1.0, 1e4, 1e8}, {1e0, 1e-2, 1e-4}},
+                {ImportPhysicsVectorType::log,
+                 {1.0, 1e4, 1e8},
+                 {1e-10, 1e-10, 1e-10}},
+            };
+            compton.tables.push_back(std::move(lambdap));
+        }
+        ImportProcess conv;
+        conv.particle_pdg = pdg::gamma().get();
+        conv.secondary_pdg = pdg::electron().get();
+        conv.process_type = ImportProcessType::electromagnetic;
+        conv.process_class = ImportProcessClass::conversion;
+        {
+            ImportModel m;
+            m.model_class = ImportModelClass::bethe_heitler_lpm;
+            m.materials.resize(num_mat);
+            for (auto& imm : m.materials)
+                imm.energy = {2 * electron_mass, 1e8};
+            conv.models.push_back(std::move(m));
+        }
+        {
+            ImportPhysicsTable lambda;
+            lambda.table_type = ImportTableType::lambda;
+            lambda.x_units = ImportUnits::mev;
+            lambda.y_units = ImportUnits::len_inv;
+            lambda.physics_vectors = {
+                {ImportPhysicsVectorType::log, {2 * electron_mass, 1e8}, {0.3, 0.3}},
+                {ImportPhysicsVectorType::log,
+                 {2 * electron_mass, 1e8},
+                 {1e-10, 1e-10}},
+            };
+            conv.tables.push_back(std::move(lambda));
+        }
+        {
+            celeritas::detail::ImportDataConverter convert{
+                celeritas::UnitSystem::cgs};
+            convert(&compton);
+            convert(&conv);
+        }
+        auto process_data = std::make_shared<ImportedProcesses>(
+            std::vector<ImportProcess>{std::move(compton), std::move(conv)});
+        input.particles = this->particle();
+        input.materials = this->material();
+        GammaConversionProcess::Options conv_opts;
+        conv_opts.enable_lpm = false;
+        input.processes = {
+            std::make_shared<ComptonProcess>(input.particles, process_data),
+            std::make_shared<GammaConversionProcess>(
+                input.particles, process_data, conv_opts),
+        };
+        input.action_registry = this->action_reg().get();
+        return std::make_shared<PhysicsParams>(std::move(input));
+    }
+
+  private:
+    ProblemConfig cfg3_;
+};
+
+//! P4: e-/e+ slowing down (mock continuous loss) in two-boxes with the REAL
+//! AlongStepGeneralLinearAction + UrbanMsc, MSC table on [0.1, 100] MeV so that MSC
+//! stops being applicable part-way through a track's life
+class P4 : virtual public test::GlobalGeoTestBase, public test::OnlyCoreTestBase
+{
+  public:
+    explicit P4(ProblemConfig c) : cfg_(c) {}
+    void TestBody() override {}
+
+  protected:
+    std::string_view geometry_basename() const override { return "two-boxes"; }
+    SPConstMaterial build_material() override
+    {
+        using namespace units;
+        MaterialParams::Input inp;
+        inp.elements = {{AtomicNumber{13}, AmuMass{27}, {}, "Al"}};
+        inp.materials = {{native_value_from(InvCcDensity{1e21}),
+                          293.0,
+                          MatterState::solid,
+                          {{ElementId{0}, 1.0}},
+                          "Al"},
+                         {native_value_from(InvCcDensity{1e17}),
+                          293.0,
+                          MatterState::gas,
+                          {{ElementId{0}, 1.0}},
+                          "thin-Al"}};
+        return std::make_shared<MaterialParams>(std::move(inp));
+    }
+    SPConstGeoMaterial build_geomaterial() override
+    {
+        GeoMaterialParams::Input input;
+        input.geometry = this->geometry();
+        input.materials = this->material();
+        input.volume_to_mat = {MaterialId{0}, MaterialId{1}, MaterialId{}};
+        input.volume_labels
+            = {Label{"inner"}, Label{"world"}, Label{"[EXTERIOR]"}};
+        return std::make_shared<GeoMaterialParams>(std::move(input));
+    }
+    SPConstParticle build_particle() override
+    {
+        using namespace constants;
+        using namespace units;
+        ParticleParams::Input defs;
+        defs.push_back({"electron",
+                        pdg::electron(),
+                        MevMass{0.5109989461},
+                        ElementaryCharge{-1},
+                        stable_decay_constant});
+        defs.push_back({"positron",
+                        pdg::positron(),
+                        MevMass{0.5109989461},
+                        ElementaryCharge{1},
+                        stable_decay_constant});
+        defs.push_back({"gamma",
+                        pdg::gamma(),
+                        zero_quantity(),
+                        zero_quantity(),
+                        stable_decay_constant});
+        return std::make_shared<ParticleParams>(std::move(defs));
+    }
+    SPConstCutoff build_cutoff() override
+    {
+        CutoffParams::Input input;
+        input.materials = this->material();
+        input.particles = this->particle();
+        input.cutoffs = {};
+        return std::make_shared<CutoffParams>(std::move(input));
+    }
+    SPConstPhysics build_physics() override
+    {
+        using Barn = test::MockProcess::BarnMicroXs;
+        PhysicsParams::Input physics_inp;
+        physics_inp.materials = this->material();
+        physics_inp.particles = this->particle();
+        physics_inp.action_registry = this->action_reg().get();
+        physics_inp.options.min_range = 1e-3 * units::centimeter;
+        physics_inp.options.secondary_stack_factor = cfg_.stack_factor;
+        auto make_applic = [this](PDGNumber pdg) {
+            Applicability result;
+            result.particle = this->particle()->find(pdg);
+            result.lower = units::MevEnergy{1e-5};
+            result.upper = units::MevEnergy{100};
+            return result;
+        };
+        test::MockProcess::Input inp;
+        inp.materials = this->material();
+        inp.interact = [](ActionId) {};
+        inp.label = "slowing-down";
+        inp.use_integral_xs = false;
+        inp.applic = {make_applic(pdg::electron())};
+        inp.xs = {Barn{0}, Barn{1e-6}, Barn{1e-6}};
+        inp.energy_loss = test::MevCmSqLossDens{2e-21};
+        physics_inp.processes.push_back(
+            std::make_shared<test::MockProcess>(inp));
+        inp.label = "slowing-down-plus";
+        inp.applic = {make_applic(pdg::positron())};
+        physics_inp.processes.push_back(
+            std::make_shared<test::MockProcess>(inp));
+        return std::make_shared<PhysicsParams>(std::move(physics_inp));
+    }
+    SPConstSim build_sim() override
+    {
+        SimParams::Input input;
+        input.particles = this->particle();
+        return std::make_shared<SimParams>(input);
+    }
+    SPConstTrackInit build_init() override
+    {
+        TrackInitParams::Input input;
+        input.capacity = cfg_.init_capacity;
+        input.max_events = 4096;
+        input.track_order = static_cast<TrackOrder>(cfg_.track_order);
+        return std::make_shared<TrackInitParams>(input);
+    }
+    SPConstWentzelOKVI build_wentzel() override { return nullptr; }
+    SPConstAction build_along_step() override
+    {
+        std::vector<ImportMscModel> msc_models;
+        for (auto pdg : {pdg::electron(), pdg::positron()})
+        {
+            ImportMscModel m;
+            m.particle_pdg = pdg.get();
+            m.model_class = ImportModelClass::urban_msc;
+            m.xs_table.table_type = ImportTableType::msc_xs;
+            m.xs_table.x_units = ImportUnits::mev;
+            m.xs_table.y_units = ImportUnits::mev_2_per_cm;
+            for (double scale : {1.0, 1e-4})
+            {
+                ImportPhysicsVector v;
+                v.vector_type = ImportPhysicsVectorType::log;
+                v.x = {0.1, 1, 10, 100};
+                v.y = {5 * scale, 5 * scale, 5 * scale, 5 * scale};
+                m.xs_table.physics_vectors.push_back(v);
+            }
+            msc_models.push_back(std::move(m));
+        }
+        auto msc = std::make_shared<UrbanMscParams>(
+            *this->particle(), *this->material(), msc_models);
+        auto& action_reg = *this->action_reg();
+        auto result = std::make_shared<AlongStepGeneralLinearAction>(
+            action_reg.next_id(), nullptr, msc);
+        action_reg.insert(result);
+        return result;
     }
 
   private:
